@@ -284,9 +284,13 @@ def parse_coverage(text):
     return cov
 
 
-def read_export(path):
-    """Lines written by CSV!CSVWrite("%1$s", <<ToJson(rec)>>, file): a JSON string holding JSON."""
+def read_export(path, keep=None, sample=None, rng=None):
+    """Lines written by CSV!CSVWrite("%1$s", <<ToJson(rec)>>, file): a JSON string holding JSON.
+    keep(rec) filters while reading; sample=k keeps a uniform random sample of k records (reservoir
+    sampling, so that exports of several gigabytes never sit in memory at once).  Returns the list,
+    and sets read_export.total to the number of records that passed the filter."""
     out = []
+    read_export.total = 0
     if not os.path.exists(path):
         return out
     with open(path, encoding="utf-8") as fh:
@@ -294,5 +298,17 @@ def read_export(path):
             line = line.strip()
             if not line:
                 continue
-            out.append(json.loads(json.loads(line)))
+            rec = json.loads(json.loads(line))
+            if keep is not None and not keep(rec):
+                continue
+            read_export.total += 1
+            if sample is None or len(out) < sample:
+                out.append(rec)
+            else:
+                j = rng.randrange(read_export.total)
+                if j < sample:
+                    out[j] = rec
     return out
+
+
+read_export.total = 0
